@@ -301,7 +301,7 @@ def run(tier, seed):
     out = common.Outcome("C07")
     cfg = "MC_KeyFile_%s.cfg" % tier
     # 1. TLC decides the C07 predicates on the specification (exhaustive for the instance)
-    res = tlc.run("MC_KeyFile.tla", cfg, workers=16, keep=())
+    res = tlc.run("MC_KeyFile.tla", cfg, workers=16, keep=(), coverage=True)
     if not res.ok:
         out.violation(
             "spec:%s" % res.violation,
